@@ -20,22 +20,23 @@ WITNESS_DOC = {
 }
 
 
-def _run(out):
-    ws = os.path.join(VERIF, "witness")
-    shutil.copy(os.path.join(REPO, "Cargo.lock"), os.path.join(ws, "Cargo.lock"))
-    scratch = os.environ.get("VERIF_SCRATCH", "/var/tmp")
-    tgt = tempfile.mkdtemp(prefix="verif-wit.", dir=scratch)
-    try:
-        env = dict(os.environ, CARGO_TARGET_DIR=tgt, CARGO_NET_OFFLINE="true")
-        r = subprocess.run(["cargo", "+nightly", "test", "--doc", "--offline"], cwd=ws, env=env, capture_output=True, text=True)
-        open(os.path.join(out, "doctest.txt"), "w").write(r.stdout + "\n--- stderr ---\n" + r.stderr[-6000:])
-    finally:
-        shutil.rmtree(tgt, ignore_errors=True)
+def _run_with(an):
+    def _run(out):
+        ws = an._ws_copy("witness", out)
+        scratch = os.environ.get("VERIF_SCRATCH", "/var/tmp")
+        tgt = tempfile.mkdtemp(prefix="verif-wit.", dir=scratch)
+        try:
+            env = dict(os.environ, CARGO_TARGET_DIR=tgt, CARGO_NET_OFFLINE="true")
+            r = subprocess.run(["cargo", "+nightly", "test", "--doc", "--offline"], cwd=ws, env=env, capture_output=True, text=True)
+            open(os.path.join(out, "doctest.txt"), "w").write(r.stdout + "\n--- stderr ---\n" + r.stderr[-6000:])
+        finally:
+            shutil.rmtree(tgt, ignore_errors=True)
+    return _run
 
 
 def verdicts(an):
     from ..core import sub_hash
-    d = an._step("witness-" + sub_hash("witness"), _run)
+    d = an._step("witness-" + sub_hash("witness"), _run_with(an))
     res = {}
     txt = open(os.path.join(d, "doctest.txt")).read()
     for ln in txt.splitlines():
